@@ -114,6 +114,7 @@ static size_t wire_fault(uint8_t *p, size_t len, const fault_t *f) {
 	else if (!strcmp(k, "zero")) { memset(p, 0, len); }
 	else if (!strcmp(k, "tag")) { if (len) p[0] = (uint8_t)f->a; }
 	else if (!strcmp(k, "empty")) { len = 0; }
+	else if (!strcmp(k, "hashmsg")) { uint8_t h_[RLC_MD_LEN]; md_map(h_, p, len); memcpy(p, h_, RLC_MD_LEN); len = RLC_MD_LEN; }	/* the bytes replaced by their own digest */
 	return len;
 }
 
